@@ -10,7 +10,7 @@ from ..runner import Outcome, Part
 
 ID = "C18"
 TITLE = "Impossible or inconsistent inputs are rejected before any calculation"
-TECHNIQUE = "property-based testing / fuzzing (Hypothesis): (a) valid generated inputs from all generators of this framework must be read, set up and swept without an unhandled exception, crashes bucketed by exception type and innermost dassh frame; (b) single-fault mutations of valid inputs, one per invalid class with drawn magnitude, must end in the documented error before the sweep; (c) line/token-level mutation fuzzing of the input text (outcome class only)"
+TECHNIQUE = "property-based testing / fuzzing (Hypothesis): (a) valid generated inputs from all generators of this framework must be read, set up and swept without an unhandled exception, crashes bucketed by exception type and innermost dassh frame; (b) single-fault mutations of valid inputs, one per invalid class with drawn magnitude, must end in the documented error before the sweep; (c) line/token-level mutation fuzzing of the input text (outcome class only); (d) binary-flux (ARC/VARPOW) inputs on the two intact data sets, valid and with one of ten ARC fault classes"
 RULE = ("valid_inputs: generated single assemblies and cores with every optional feature (bypass ducts, low-fidelity, axial regions, "
         "pin models, spacer grids, unit systems, temperature boundary conditions, conv_approx, bare rods, all correlation triples); "
         "single_faults: one fault of a drawn class and magnitude (barely to grossly invalid) injected into a valid input; "
